@@ -188,18 +188,24 @@ def main(tier):
     ck.cov["isa_modules"] = sorted(isas)
     W = World(isas)
     ck.cov["global_slots"] = {n: len(v) for n, v in W.objs.items()}
-    npool = 60 if quick else 600
+    # The footprint table is measured on a FIXED sample (independent of VERIF_SEED): one spec-directed
+    # instruction per registered spec in the quick tier (four in thorough), so that the table — and
+    # hence the list of dirty rows — is the same on every run of the same tree.  VERIF_SEED drives the
+    # random histories of the oracle below, which draw their instructions from the same pool.
+    import random as _random
+    per_spec = 1 if quick else 4
     pools, states, table, rows = {}, {}, [], {}
     # ---- measure footprints ------------------------------------------------------------------------
     for name in sorted(isas):
         I = isas[name]
         e = -1 if I.be else 1
         specs = isa.module_specs(I, 0)
+        fr = _random.Random("C10-footprint-" + name)
         states[name] = [concrete_state(I, 0), concrete_state(I, 1)]
         W.restore({name})
         pool = []
-        for s in (specs if len(specs) <= npool else [specs[k] for k in sorted(r.sample(range(len(specs)), npool))]):
-            bs = isa.directed_bytes(s, e, r)
+        for s in [x for x in specs for _ in range(per_spec)]:
+            bs = isa.directed_bytes(s, e, fr)
             before = W.snap({name})
             try:
                 isa.reset(I.dis)
